@@ -182,9 +182,21 @@ def main(repo, gen):
 if __name__ == "__main__":
     try:
         main(sys.argv[1], sys.argv[2])
-    except (Unsupported, SyntaxError, OSError) as e:
+    except Exception as e:  # Unsupported shape, syntax error, missing file ...
+        # The current shape of the source is not one this translator understands.  Install the pinned table (the
+        # translation of the code as it was when the proofs were written): the theorems are then about that table and
+        # ONLY the correspondence run of the check ties it to the current code (exit code 3 tells the driver so).
+        # Without a pinned table: fail closed with a file that cannot compile, so that no stale table is ever used.
         p = Path(sys.argv[2]) / "Batchable.v"
         p.parent.mkdir(parents=True, exist_ok=True)
-        p.write_text("(* translator failed: %s *)\nTranslator_failed_see_comment.\n" % str(e).replace("*)", "* )").replace("(*", "( *"))
-        print("UNSUPPORTED:", e, file=sys.stderr)
+        pinned = Path(__file__).parent / "pinned" / "Batchable.v"
+        why = ("%s: %s" % (type(e).__name__, e)).replace("\n", " ")
+        if pinned.exists():
+            txt = pinned.read_text()
+            if not p.exists() or p.read_text() != txt:
+                p.write_text(txt)
+            print("FALLBACK to pinned table:", why[:500])
+            sys.exit(3)
+        p.write_text("(* translator failed: %s *)\nTranslator_failed_see_comment.\n" % why.replace("*)", "* )").replace("(*", "( *"))
+        print("UNSUPPORTED:", why, file=sys.stderr)
         sys.exit(2)
